@@ -121,12 +121,19 @@ func (m *MemCache) retrieve(id uint16, addr net.IP) (TemplateRecord, bool) {
 
 // Dump saves the current templates to hard disk
 func (m MemCache) Dump(cacheFile string) error {
+	// the encoder walks every shard: keep the decoders out while it does
+	for _, shard := range m {
+		shard.RLock()
+	}
 	b, err := json.Marshal(
 		memCacheDisk{
 			m,
 			shardNo,
 		},
 	)
+	for _, shard := range m {
+		shard.RUnlock()
+	}
 	if err != nil {
 		return err
 	}
